@@ -2,6 +2,7 @@ package main
 
 import (
 	"fmt"
+	"os"
 	"go/types"
 	"sort"
 	"strings"
@@ -171,9 +172,15 @@ func (f *fnTrans) applyCall(ins ssa.Instruction, name string, ct *Contract, sig 
 			}
 		}
 	}
+	if os.Getenv("ICEVC_TRACE") != "" {
+		fmt.Fprintf(os.Stderr, "TRACE %s: call %s havocs %v\n", f.name, name, mods)
+	}
 	pre := f.cur.Clone()
 	mkEnv := func(cs *callCase, st *State) *Env {
 		e := &Env{w: f.w, names: cs.names, st: st, old: pre, lets: f.letsOf(cs.ct)}
+		e.emit = func(t Term) { f.factHere(t) }
+		e.topFor = f.topForVersion
+		e.wfSeen = f.wfSeenMap()
 		if closureBind != nil {
 			e.lookup = f.closureLookup(closureBind, st)
 			e.oldLookup = f.closureLookup(closureBind, pre)
@@ -227,13 +234,17 @@ func (f *fnTrans) applyCall(ins ssa.Instruction, name string, ct *Contract, sig 
 	for _, h := range mods {
 		if h == "G$allocTop" {
 			modsTop = true
-			continue
 		}
-		f.havocHeap(h)
 	}
+	// the allocation counter first: the new heap versions may refer to objects the callee allocated
 	if modsTop {
 		f.havocHeap("G$allocTop")
 		f.factHere(Ge(f.heap("G$allocTop"), preTop))
+	}
+	for _, h := range mods {
+		if h != "G$allocTop" {
+			f.havocHeap(h)
+		}
 	}
 	frameTop := preTop
 	if !modsTop {
@@ -253,6 +264,26 @@ func (f *fnTrans) applyCall(ins ssa.Instruction, name string, ct *Contract, sig 
 				before = Sym(h+"@0", f.w.heapSort[h])
 			}
 			f.fact(And(f.here(), cs.guard), f.frameFormula(h, fs.locs[h], before, f.heap(h), frameTop))
+		}
+	}
+	for _, cs := range cases {
+		if cs.ct == nil || cs.hasMod || len(cs.ct.Frames) == 0 {
+			continue
+		}
+		fs := f.frameOfMods(cs.ct.Frames, cs.sig, mkEnv(cs, pre))
+		inMods := map[string]bool{}
+		for _, h := range mods {
+			inMods[h] = true
+		}
+		for h, locs := range fs.locs {
+			if !inMods[h] {
+				continue
+			}
+			before, ok := pre.h[h]
+			if !ok {
+				before = Sym(h+"@0", f.w.heapSort[h])
+			}
+			f.fact(And(f.here(), cs.guard), f.frameFormula(h, locs, before, f.heap(h), frameTop))
 		}
 	}
 	// ... and is assumed to hold after it
@@ -603,7 +634,8 @@ func (f *fnTrans) appendBuiltin(c *ssa.CallCommon, res *ssa.Call) {
 		oldH := f.heap(h)
 		newArr := f.fresh("apparr", ArrSort(SInt, es))
 		tgtArr, tgtOff := SlArr(resT), SlOff(resT)
-		// contents: prefix kept (fresh case: copied), appended range equals source
+		// contents: prefix kept (fresh case: copied), appended range equals source;
+		// stated over the absolute index k so that (select newArr k) is the trigger
 		var srcAt func(j string) string
 		if srcIsStr {
 			srcAt = func(j string) string { return fmt.Sprintf("(gstr.at %s %s)", src.S, j) }
@@ -613,10 +645,10 @@ func (f *fnTrans) appendBuiltin(c *ssa.CallCommon, res *ssa.Call) {
 			}
 		}
 		oldLen := SlLen(s)
-		f.factHere(Term{fmt.Sprintf("(forall ((j Int)) (! (=> (and (<= 0 j) (< j %s)) (= (select %s (+ %s j)) (select (select %s (sl.arr %s)) (+ (sl.off %s) j)))) :pattern ((select %s (+ %s j)))))",
-			oldLen.S, newArr.S, tgtOff.S, oldH.S, s.S, s.S, newArr.S, tgtOff.S), SBool})
-		f.factHere(Term{fmt.Sprintf("(forall ((j Int)) (! (=> (and (<= 0 j) (< j %s)) (= (select %s (+ %s %s j)) %s)) :pattern ((select %s (+ %s %s j)))))",
-			n.S, newArr.S, tgtOff.S, oldLen.S, srcAt("j"), newArr.S, tgtOff.S, oldLen.S), SBool})
+		f.factHere(Term{fmt.Sprintf("(forall ((k Int)) (! (=> (and (<= %s k) (< k (+ %s %s))) (= (select %s k) (select (select %s (sl.arr %s)) (+ (sl.off %s) (- k %s))))) :pattern ((select %s k))))",
+			tgtOff.S, tgtOff.S, oldLen.S, newArr.S, oldH.S, s.S, s.S, tgtOff.S, newArr.S), SBool})
+		f.factHere(Term{fmt.Sprintf("(forall ((k Int)) (! (=> (and (<= (+ %s %s) k) (< k (+ %s %s %s))) (= (select %s k) %s)) :pattern ((select %s k))))",
+			tgtOff.S, oldLen.S, tgtOff.S, oldLen.S, n.S, newArr.S, srcAt(fmt.Sprintf("(- k (+ %s %s))", tgtOff.S, oldLen.S)), newArr.S), SBool})
 		// in-place: everything outside [off+oldLen, off+newLen) unchanged
 		f.factHere(Implies(inPlace, Term{fmt.Sprintf("(forall ((j Int)) (! (=> (or (< j (+ %s %s)) (>= j (+ %s %s))) (= (select %s j) (select (select %s (sl.arr %s)) j))) :pattern ((select %s j))))",
 			tgtOff.S, oldLen.S, tgtOff.S, newLen.S, newArr.S, oldH.S, s.S, newArr.S), SBool}))
@@ -673,8 +705,9 @@ func (f *fnTrans) copyBuiltin(c *ssa.CallCommon, res *ssa.Call) {
 		} else {
 			srcAt = fmt.Sprintf("(select (select %s (sl.arr %s)) (+ (sl.off %s) j))", oldH.S, src.S, src.S)
 		}
-		f.factHere(Term{fmt.Sprintf("(forall ((j Int)) (! (=> (and (<= 0 j) (< j %s)) (= (select %s (+ (sl.off %s) j)) %s)) :pattern ((select %s (+ (sl.off %s) j)))))",
-			n.S, newArr.S, dst.S, srcAt, newArr.S, dst.S), SBool})
+		srcAtK := strings.ReplaceAll(srcAt, " j)", fmt.Sprintf(" (- k (sl.off %s)))", dst.S))
+		f.factHere(Term{fmt.Sprintf("(forall ((k Int)) (! (=> (and (<= (sl.off %s) k) (< k (+ (sl.off %s) %s))) (= (select %s k) %s)) :pattern ((select %s k))))",
+			dst.S, dst.S, n.S, newArr.S, srcAtK, newArr.S), SBool})
 		f.factHere(Term{fmt.Sprintf("(forall ((j Int)) (! (=> (or (< j (sl.off %s)) (>= j (+ (sl.off %s) %s))) (= (select %s j) (select (select %s (sl.arr %s)) j))) :pattern ((select %s j))))",
 			dst.S, dst.S, n.S, newArr.S, oldH.S, dst.S, newArr.S), SBool})
 		f.setHeap(h, Store(oldH, SlArr(dst), newArr))
